@@ -328,6 +328,8 @@ class JsonSchemaGenerator:
             value = self.generate_for_field(field, options=options)
             if value is None:
                 continue
+            # the fields map is keyed in lower case for case-insensitive fields: use the real name
+            name = field.name
             properties[name] = value
             if field.dependencies:
                 dependent_required[name] = field.dependencies
